@@ -94,6 +94,33 @@ class Model(object):
         self.sub = {}           # submodule trees (visualization.*), parsed for who-may-write rules only
         self._load(subpackages)
         self._index()
+        self._positionalise()
+
+    def _positionalise(self):
+        """second canonical spelling, needs resolved callees: in a call of a module-level package function, keyword arguments that name
+        the next positional parameters are moved into their positions (f(a, knot_vector=k, num=n) -> f(a, k, num=n) when the third
+        parameter is not `num`); keywords that land in the callee's **kwargs, or that would leave a gap, stay"""
+        for mod, t in self.tree.items():
+            for call in [n for n in ast.walk(t) if isinstance(n, ast.Call) and n.keywords]:
+                if any(isinstance(a, ast.Starred) for a in call.args):
+                    continue
+                try:
+                    fi = self.resolve_callable(mod, call.func)
+                except Exception:
+                    fi = None
+                if fi is None or fi.kind != 'function' or fi.node.args.vararg is not None:
+                    continue
+                ps = [a.arg for a in fi.node.args.args]
+                kws = {k.arg: k for k in call.keywords if k.arg is not None}
+                moved = False
+                while len(call.args) < len(ps) and ps[len(call.args)] in kws:
+                    k = kws.pop(ps[len(call.args)])
+                    k.value._sa_parent = call
+                    call.args.append(k.value)
+                    call.keywords.remove(k)
+                    moved = True
+                if moved:
+                    ast.fix_missing_locations(call)
 
     # ------------------------------------------------------------------ loading
     def _read(self, rel):
